@@ -149,15 +149,24 @@ def _lines(text):
     return text.replace("\r\n", "\n").replace("\r", "\n").split("\n")
 
 
+_PLUS_INT = re.compile(r"^\+[0-9]+$")
+_BLANKS = " \t\n\r\x0b\x0c"
+
+
+def _split(s):
+    """Fields separated by ASCII blanks (U+001C, U+0085, U+2028 ... are
+    white space for python, not for a graph file)."""
+    return [f for f in re.split("[ \t\n\r\x0b\x0c]+", s) if f != ""]
+
+
 def _tok_int(tok):
-    """int | 'gray' (python accepts, format does not) | None (not a number)"""
+    """int | 'gray' (written with a plus sign) | None (not a number:
+    '1_0' and non-ASCII digits are integers for python only)"""
     if _INT.match(tok):
         return int(tok)
-    try:
-        int(tok)
+    if _PLUS_INT.match(tok):
         return "gray"
-    except ValueError:
-        return None
+    return None
 
 
 def read_kthlist(text, gtype):
@@ -168,22 +177,22 @@ def read_kthlist(text, gtype):
     for raw in _lines(text):
         if raw[:1] == "c":
             continue
-        if raw.strip() == "":
+        if raw.strip(_BLANKS) == "":
             continue
-        if raw.lstrip()[:1] == "c":
+        if raw.lstrip(_BLANKS)[:1] == "c":
             gray = gray or "comment line with leading blanks"
             continue
         if ":" not in raw:
             if n is not None:
                 return Invalid("second size line")
-            toks = raw.split()
+            toks = _split(raw)
             if len(toks) != 1:
                 return Invalid("ill-formed size line")
             v = _tok_int(toks[0])
             if v is None:
                 return Invalid("non-numeric size")
             if v == "gray":
-                gray = gray or "exotic integer spelling"
+                gray = gray or "integer written with a plus sign"
                 v = int(toks[0])
             if v < 0:
                 return Invalid("negative size")
@@ -194,16 +203,16 @@ def read_kthlist(text, gtype):
         parts = raw.split(":")
         if len(parts) != 2:
             return Invalid("more than one colon")
-        lt = parts[0].split()
+        lt = _split(parts[0])
         if len(lt) != 1:
             return Invalid("ill-formed vertex")
         nums = []
-        for tok in lt + parts[1].split():
+        for tok in lt + _split(parts[1]):
             v = _tok_int(tok)
             if v is None:
                 return Invalid("non-integer token")
             if v == "gray":
-                gray = gray or "exotic integer spelling"
+                gray = gray or "integer written with a plus sign"
                 v = int(tok)
             nums.append(v)
         v, us = nums[0], nums[1:]
@@ -252,17 +261,17 @@ def read_dimacs_edge(text, gtype):
     gray = None
     seen = set()
     for raw in _lines(text):
-        line = raw.strip()
+        line = raw.strip(_BLANKS)
         if line == "" or line[0] == "c":
             continue
-        toks = line.split()
+        toks = _split(line)
         if line[0] == "p":
             if n is not None:
                 return Invalid("second problem line")
             if len(toks) != 4:
                 return Invalid("ill-formed problem line")
             if toks[0] != "p":
-                gray = gray or "first token of problem line is not 'p'"
+                return Invalid("first token of problem line is not 'p'")
             if toks[1] != "edge":
                 if toks[1] in ("col", "edges"):
                     return Gray("problem line format is %r" % toks[1])
@@ -273,7 +282,7 @@ def read_dimacs_edge(text, gtype):
                 if v is None:
                     return Invalid("non-numeric count")
                 if v == "gray":
-                    gray = gray or "exotic integer spelling"
+                    gray = gray or "integer written with a plus sign"
                     v = int(t)
                 vals.append(v)
             n, m = vals
@@ -287,14 +296,14 @@ def read_dimacs_edge(text, gtype):
             if len(toks) != 3:
                 return Invalid("ill-formed edge line")
             if toks[0] != "e":
-                gray = gray or "first token of an edge line is not 'e'"
+                return Invalid("first token of an edge line is not 'e'")
             vals = []
             for t in toks[1:]:
                 v = _tok_int(t)
                 if v is None:
                     return Invalid("non-integer vertex")
                 if v == "gray":
-                    gray = gray or "exotic integer spelling"
+                    gray = gray or "integer written with a plus sign"
                     v = int(t)
                 vals.append(v)
             u, v = vals
@@ -323,7 +332,7 @@ def read_matrix(text):
     nums = []
     gray = None
     for raw in _lines(text):
-        toks = raw.split()
+        toks = _split(raw)
         if not toks or toks[0][0] == "#":
             continue
         for t in toks:
@@ -331,7 +340,7 @@ def read_matrix(text):
             if v is None:
                 return Invalid("non numeric entry")
             if v == "gray":
-                gray = gray or "exotic integer spelling"
+                gray = gray or "integer written with a plus sign"
                 v = int(t)
             nums.append(v)
     if len(nums) < 2:
